@@ -1,5 +1,64 @@
-(* Properties/C09.v — zero-copy slices stay valid until Release/Flush; caller memory untouched. *)
-From GV Require Import Lib.Bytes Lib.Heap Model.Own Proofs.OwnLib.
+(* Properties/C09.v — zero-copy slices stay valid until Release/Flush; caller memory is never
+   touched.  Statements over the heap-level models (Model/Own*.v): every history interleaves
+   operations of the object (each with an arbitrary allocator oracle and arbitrary co-tenant
+   scripts for every io callback and every pool operation inside it) with arbitrary co-tenant
+   activity between operations, starting in an arbitrary well-formed world. *)
+From GV Require Import Lib.Bytes Lib.Heap Model.Own Model.OwnReader Spec.Ownership
+  Proofs.OwnLib Proofs.OwnTrace Proofs.OwnReaderP.
+Open Scope N_scope.
 
-Theorem C09_memb_spec : forall b l, memb b l = true <-> In b l.
-Proof. exact memb_In. Qed.
+(* every slice handed out by Next/Peek (and thrift.SkipDecoder.Next) since the last Release
+   still reads as the stream bytes it was returned with *)
+Theorem C09_reader_slices_stable :
+  forall (src : source) (w0 : world) (h : list hstep) st w tr outs,
+    wok w0 -> spos src = 0 ->
+    run (new_reader src, w0, []) h = (st, w, tr, outs) ->
+    Forall (fun l => rd (wh w) (lblk l) (loff l) (llen l) = seg_at (sdata src) (lpos l) (llen l)) (rlive st).
+Proof. exact reader_slices_stable. Qed.
+
+Theorem C09_bytes_reader_slices_stable :
+  forall (w0 : world) (pre data spare : bytes) st0 e0 (h : list hstep) st w tr outs,
+    wok w0 -> new_bytes_reader (mkE w0 [] [] [] []) pre data spare = (st0, e0) ->
+    run (st0, ew e0, eev e0) h = (st, w, tr, outs) ->
+    Forall (fun l => rd (wh w) (lblk l) (loff l) (llen l) = seg_at data (lpos l) (llen l)) (rlive st).
+Proof. exact bytes_reader_slices_stable. Qed.
+
+(* no reader step writes or frees the caller's buffer (any capacity, any offset), only whole
+   allocator blocks are ever freed, and a freed block is never read, written or freed again
+   unless the allocator hands it back *)
+Theorem C09_reader_caller_untouched_no_use_after_free :
+  forall (src : source) (w0 : world) (h : list hstep) st w tr outs,
+    wok w0 -> spos src = 0 ->
+    run (new_reader src, w0, []) h = (st, w, tr, outs) ->
+    no_use_after_free (rev tr) /\ caller_untouched (rev tr) /\ frees_whole_blocks (rev tr).
+Proof. exact reader_trace_ok. Qed.
+
+Theorem C09_bytes_reader_caller_untouched_no_use_after_free :
+  forall (w0 : world) (pre data spare : bytes) st0 e0 (h : list hstep) st w tr outs,
+    wok w0 -> new_bytes_reader (mkE w0 [] [] [] []) pre data spare = (st0, e0) ->
+    run (st0, ew e0, eev e0) h = (st, w, tr, outs) ->
+    no_use_after_free (rev tr) /\ caller_untouched (rev tr) /\ frees_whole_blocks (rev tr).
+Proof. exact bytes_reader_trace_ok. Qed.
+
+(* non-vacuity: slices retained across two growths (two parked buffers) while the co-tenant is
+   active; then Releases that free, a co-tenant that takes a freed block, scribbles over it
+   and frees it, and the reader getting a pooled block back from the allocator *)
+Definition ex_src : source := mkSrc (pat 3 20000) e_eof false [] 0.
+Definition ex_hist1 : list hstep :=
+  [SOp (HNext 10) [] [] []; SOp (HNext 5000) [] [] []; SCo [CoAlloc 64 (Fresh [])];
+   SOp (HPeek 9000) [] [] []].
+Definition ex_hist2 : list hstep :=
+  ex_hist1 ++
+  [SOp HRelease [] [] [];
+   SCo [CoAlloc 4096 (Pooled 0); CoWrite 0 0 [1; 2; 3]; CoFree 0];
+   SOp (HNext 14990) [] [] []; SOp HRelease [] [] []; SOp (HPeek 1) [Pooled 3] [] []].
+Definition is_free (e : event) := match e with EvFree _ _ _ _ => true | _ => false end.
+Definition is_alloc3 (e : event) := match e with EvAlloc 3%nat => true | _ => false end.
+Example C09_reader_nonvacuous_live :
+  let '(st, w, tr, outs) := run (new_reader ex_src, empty_world, []) ex_hist1 in
+  (length (rlive st), length (rpend st)) = (3%nat, 2%nat).
+Proof. vm_compute. reflexivity. Qed.
+Example C09_reader_nonvacuous_reuse :
+  let '(st, w, tr, outs) := run (new_reader ex_src, empty_world, []) ex_hist2 in
+  (length (filter is_free tr), length (filter is_alloc3 tr)) = (3%nat, 2%nat).
+Proof. vm_compute. reflexivity. Qed.
